@@ -183,6 +183,9 @@ func TestVerifC43Shared(t *testing.T) {
 		}
 	}
 
+	verifPropagation(tr)
+	verifObserverCow(tr)
+
 	// ---- deterministic probe: a reader during the unlock window of Unique
 	// Unique on a concurrent object releases the lock while it compacts ob.list in place
 	// (it calls Equal of the members). A reader that runs in that window must see the list as
@@ -222,6 +225,173 @@ func TestVerifC43Shared(t *testing.T) {
 				tr.Fail("unique-window-torn-read", fmt.Sprintf(
 					"a reader running while Unique() has released the lock saw the list [%s]; before [%s], after [%s]", s, before, after))
 				break
+			}
+		}
+	}
+}
+
+// verifPropagation: every value that is stored into a shared (concurrent) container, record or
+// closure through any storing method must itself be made concurrent, otherwise a second thread
+// reaches it without locking.
+func verifPropagation(tr *lib.Trace) {
+	fresh := func() *SuObject { o := &SuObject{}; o.Add(One); return o }
+	check := func(what string, vals ...*SuObject) {
+		tr.Count("propagation-checks")
+		for _, v := range vals {
+			if v.IsConcurrent() != True {
+				tr.Fail("setconcurrent-"+strings.Fields(what)[0], what+": the stored value is reachable from a shared value but was not made concurrent")
+			}
+		}
+	}
+	for _, pre := range []int{0, 3} { // empty list / list with members
+		newOb := func() *SuObject {
+			ob := &SuObject{}
+			for i := 0; i < pre; i++ {
+				ob.Add(IntVal(i))
+			}
+			ob.SetConcurrent()
+			return ob
+		}
+		var v, k *SuObject
+		ob := newOb()
+		v = fresh()
+		ob.Add(v)
+		check("Add", v)
+		for _, at := range []int{0, pre, pre / 2} {
+			ob, v = newOb(), fresh()
+			ob.Insert(at, v)
+			check(fmt.Sprintf("Insert at %d of %d (inside the list)", at, pre), v)
+		}
+		for _, at := range []int{-1, pre + 5} {
+			ob, v = newOb(), fresh()
+			ob.Insert(at, v)
+			check(fmt.Sprintf("Insert at %d of %d (outside the list)", at, pre), v)
+		}
+		for _, key := range []Value{IntVal(0), IntVal(pre), IntVal(pre + 7), SuStr("name")} {
+			ob, v = newOb(), fresh()
+			ob.Put(nil, key, v)
+			check("Put "+key.String(), v)
+			ob, v = newOb(), fresh()
+			ob.Set(key, v)
+			check("Set "+key.String(), v)
+		}
+		ob, v, k = newOb(), fresh(), fresh()
+		ob.Put(nil, k, v)
+		check("Put object key", k, v)
+		ob, v = newOb(), fresh()
+		ob.Set(SuStr("x"), One)
+		ob.CompareAndSet(SuStr("x"), v, One)
+		check("CompareAndSet", v)
+		ob, v = newOb(), fresh()
+		ob.Set(SuStr("x"), One)
+		ob.GetPut(nil, SuStr("x"), One, func(x, y Value) Value { return v }, false)
+		check("GetPut", v)
+		ob, v = newOb(), fresh()
+		ob.SetDefault(v)
+		check("SetDefault", v)
+		// values already inside when the container is shared
+		inner, dflt, kk := fresh(), fresh(), fresh()
+		ob = &SuObject{}
+		ob.Add(inner)
+		ob.Set(kk, fresh())
+		ob.SetDefault(dflt)
+		ob.SetConcurrent()
+		check("SetConcurrent of a container with members", inner, dflt, kk)
+	}
+	// records
+	newRec := func() *SuRecord { r := NewSuRecord(); r.SetConcurrent(); return r }
+	rec, v := newRec(), fresh()
+	rec.Put(nil, SuStr("a"), v)
+	check("record Put", v)
+	rec, v = newRec(), fresh()
+	rec.Set(SuStr("a"), v)
+	check("record Set", v)
+	rec, v = newRec(), fresh()
+	rec.Add(v)
+	check("record Add", v)
+	rec, v = newRec(), fresh()
+	rec.Insert(0, v)
+	check("record Insert", v)
+	rec, v = newRec(), fresh()
+	rec.PreSet(SuStr("a"), v)
+	check("record PreSet", v)
+	rec, v = newRec(), fresh()
+	rec.Observer(v)
+	check("record Observer", v)
+	rec, v = newRec(), fresh()
+	rec.AttachRule(SuStr("a"), v)
+	check("record AttachRule", v)
+	rec, v = NewSuRecord(), fresh()
+	rule, obs := fresh(), fresh()
+	rec.Put(nil, SuStr("a"), v)
+	rec.AttachRule(SuStr("r"), rule)
+	rec.Observer(obs)
+	rec.SetConcurrent()
+	check("SetConcurrent of a record with members, rules and observers", v, rule, obs)
+	// closures: `this` and the shared variables
+	for _, withShared := range []bool{false, true} {
+		this, sv := fresh(), fresh()
+		c := &SuClosure{this: this, SuFunc: &SuFunc{}}
+		if withShared {
+			c.shared = &Shared{values: []Value{sv, nil}}
+		}
+		c.SetConcurrent()
+		check(fmt.Sprintf("closure SetConcurrent (shared variables: %v): this", withShared), this)
+		if withShared {
+			check("closure SetConcurrent: shared variable", sv)
+			if !c.shared.concurrent {
+				tr.Fail("setconcurrent-closure-shared", "closure made concurrent but its shared slots are not locked")
+			}
+		}
+		// a closure stored into a shared container
+		this = fresh()
+		c = &SuClosure{this: this, SuFunc: &SuFunc{}}
+		ob := &SuObject{}
+		ob.SetConcurrent()
+		ob.Add(c)
+		check("closure stored into a shared object: this", this)
+	}
+}
+
+// verifObserverCow: the observer list is copy-on-write, so observers that add or remove
+// observers while a notification round is running do not disturb that round: every observer that
+// was registered when the round started is called exactly once.
+func verifObserverCow(tr *lib.Trace) {
+	th := NewThread(nil)
+	for _, shared := range []bool{false, true} {
+		for victim := 0; victim < 3; victim++ {
+			rec := NewSuRecord()
+			var calls []string
+			obs := make([]Value, 3)
+			names := []string{"A", "B", "C"}
+			for i := range obs {
+				i := i
+				obs[i] = &SuBuiltin1{Fn: func(m Value) Value {
+					calls = append(calls, names[i])
+					if i == 0 && len(calls) == 1 {
+						rec.RemoveObserver(obs[victim]) // an observer unregisters one of them
+					}
+					return nil
+				}, BuiltinParams: BuiltinParams{ParamSpec: ParamSpec{Nparams: 1, Flags: []Flag{0},
+					Names: []string{"member"}}}}
+				rec.Observer(obs[i])
+			}
+			if shared {
+				rec.SetConcurrent()
+			}
+			msg := lib.Catch(func() { rec.Put(th, SuStr("x"), One) })
+			tr.Count("observer-cow-rounds")
+			got := strings.Join(calls, "")
+			if msg != "" || got != "ABC" {
+				tr.Fail("observer-list-not-cow", fmt.Sprintf(
+					"observers A,B,C; A removes %s during the round (shared=%v): called %q %s; every observer registered at the start of the round must be called once",
+					names[victim], shared, got, msg))
+			}
+			calls = nil
+			msg = lib.Catch(func() { rec.Put(th, SuStr("x"), IntVal(2)) })
+			want := strings.Replace("ABC", names[victim], "", 1)
+			if got := strings.Join(calls, ""); msg != "" || got != want {
+				tr.Fail("observer-remove", fmt.Sprintf("after removing %s the next round called %q %s", names[victim], got, msg))
 			}
 		}
 	}
